@@ -225,7 +225,7 @@ fn run(cx: &Cx) {
     }
     cx.exhaustive(true);
     let cnt = Cnt { not_doc: AtomicU64::new(0), invalid: AtomicU64::new(0), with_fault: AtomicU64::new(0), agree_with_fault: AtomicU64::new(0) };
-    let (qn, mn, vdev) = if cx.quick() { (3, 3, 0) } else { (4, 4, 1) };
+    let (qn, mn, vdev) = if cx.quick() { (4, 3, 0) } else { (4, 4, 1) };
     // bounds: [decorations, value deviations, faults, -]
     let conds: &[&str] = &["A", "B", "I", "U"];
     let q = GenCfg { schema: &refs, fields: Q_FIELDS, conds, max_nodes: qn, max_depth: 3, named_fragments: 1, deco: Some(Class::Dev(0)), typename: false, op: OpKind::Query, root_fragments: true };
@@ -240,7 +240,7 @@ fn run(cx: &Cx) {
         Ok(d) => d,
         Err(e) => return cx.machinery_error(format!("dynamic twin of S1 does not build: {e}")),
     };
-    let dq = GenCfg { max_nodes: if cx.quick() { 2 } else { 3 }, ..GenCfg { schema: &refs, fields: Q_FIELDS, conds, max_nodes: qn, max_depth: 3, named_fragments: 1, deco: Some(Class::Dev(0)), typename: false, op: OpKind::Query, root_fragments: true } };
+    let dq = GenCfg { max_nodes: 3, ..GenCfg { schema: &refs, fields: Q_FIELDS, conds, max_nodes: qn, max_depth: 3, named_fragments: 1, deco: Some(Class::Dev(0)), typename: false, op: OpKind::Query, root_fragments: true } };
     explore_part(cx, &refs, &Target::Dynamic(&dynamic), &dq, "dynamic-query", [0, vdev, 2, 0], &cnt);
     let dm = GenCfg { schema: &refs, fields: M_FIELDS, conds: &[], max_nodes: mn, max_depth: 3, named_fragments: 0, deco: None, typename: false, op: OpKind::Mutation, root_fragments: true };
     explore_part(cx, &refs, &Target::Dynamic(&dynamic), &dm, "dynamic-mutation", [0, vdev + 1, 2, 0], &cnt);
